@@ -326,14 +326,23 @@ func (j *join[T]) dump() CollectionDump {
 // nolint: unused // (not true)
 type joinIndexer[T any] struct {
 	indexers []indexer[T]
+	// shadowed reports whether a collection with higher priority than idx holds the object key, in which case
+	// the object of collection idx is not part of the join. nil when keys cannot overlap (unchecked mode).
+	shadowed func(idx int, objectKey string) bool
 }
 
 // nolint: unused // (not true)
 func (j joinIndexer[T]) Lookup(key string) []T {
 	var res []T
 	first := true
-	for _, i := range j.indexers {
+	for idx, i := range j.indexers {
 		l := i.Lookup(key)
+		if j.shadowed != nil && idx > 0 {
+			// Key conflicts are resolved by picking the item of the first collection, as List() and GetKey() do.
+			l = slices.Filter(l, func(o T) bool {
+				return !j.shadowed(idx, GetKey(o))
+			})
+		}
 		if len(l) > 0 && first {
 			// Optimization: re-use the first returned slice
 			res = l
@@ -350,6 +359,16 @@ func (j *join[T]) index(name string, extract func(o T) []string) indexer[T] {
 	ji := joinIndexer[T]{indexers: make([]indexer[T], 0, len(j.collections))}
 	for _, c := range j.collections {
 		ji.indexers = append(ji.indexers, c.index(name, extract))
+	}
+	if !j.uncheckedOverlap {
+		ji.shadowed = func(idx int, objectKey string) bool {
+			for i := range idx {
+				if j.getFromColIdx(i, objectKey) != nil {
+					return true
+				}
+			}
+			return false
+		}
 	}
 	return ji
 }
